@@ -155,20 +155,27 @@ func VH_C08_walk_createleaf() {
 
 func VH_C08_walk_stream() {
 	l, ctx := vhWalkSetup("stream")
-	if verifrt.Choose("second-tip", 2) == 1 {
-		// a second tip sharing the ancestors of the first (a gossiped sibling of the last vertex)
-		k := len(l.recs)
-		p := k - 2
-		if p < 0 {
-			p = 0
-		}
-		l.add(vhTransfer(k, "A", "C", spice.New(0, 1), nil, vhPeerAddr, uint64(50+k)), p)
-	}
 	ch := l.ab.StreamDAG(ctx)
 	for range ch {
 	}
 	l.vhWriteProbe("VH_C08_walk_stream")
 	verifrt.Reach("C08/walk/stream")
+}
+
+// VH_C08_walk_stream_two_tips: two tips sharing ancestors (the second walk meets vertices that were
+// already streamed), context live or cancelled at any poll.
+func VH_C08_walk_stream_two_tips() {
+	n := 2 + verifrt.Choose("ancestors", 2)
+	l := vhWalkLedger(n)
+	k := len(l.recs)
+	l.add(vhTransfer(k, "A", "C", spice.New(0, 1), nil, vhPeerAddr, uint64(50+k)), k-2) // a sibling of the last vertex
+	ctx := vhNewCtx(verifrt.Choose("cancel-after", 2*n+4))
+	verifrt.CheckLeaks(true)
+	verifrt.ExploreSchedules(1)
+	for range l.ab.StreamDAG(ctx) {
+	}
+	l.vhWriteProbe("VH_C08_walk_stream_two_tips")
+	verifrt.Reach("C08/walk/stream-two-tips")
 }
 
 // VH_C08_truncate: the cut is found while the walker still has ancestors to send (ErrBreak exit), for
